@@ -36,7 +36,12 @@ ASSUMPTIONS = [
     'extend-split automatic_extend_split decisions depend on float error estimates of the integrand: they are not modelled here; the observed '
     'areas and their computed component grids are the input of the verified checkers',
     'cell strategy: implementation-only oracle (no model); supported configuration lmin = lmax',
-    'rounded observables compared with |impl - exact| <= 1e-11 * (1 + |exact|)',
+    'rounded observables compared purely relatively: |impl - exact| <= 1e-11 * (natural scale of the quantity: |exact integral| of a hat, amplitude of a hat value, '
+    'prod_d max|factor| * volume for products of linear functions and monomials); function amplitudes 2^k are divided out exactly before the comparison',
+    'float32 bounds are only generated where float32 represents the grid coordinates down to level 12 (beyond that the library computes in float32 and '
+    'collapses grid points: ValueError from scipy interpn on the unchanged tree)',
+    'observer calls: the values of the property\'s functions must be unchanged; the arbitrary driver component is only counted (evaluate_final_combi does '
+    'not reproduce its accumulated value under automatic_extend_split - a statement of C05, not of C04)',
 ]
 
 BOXES = [(0.0, 1.0), (0.0, 1.0), (-1.0, 1.0), (0.5, 2.0), (-3.0, 6.0), (2.0, 2.25)]
@@ -104,24 +109,80 @@ def gen_lin_fns(rng, dim):
     return fns
 
 
-def gen_case_dw(rng, tier):
+# ---- the axes of the blind-seeding lessons (harness/AGENT_NOTE_HISTORIES.txt) -----------------------------------------------
+# magnitudes (d): domains far from the origin, tiny boxes, both; all dyadic, every grid coordinate exact in binary64
+DW_BOXES = BOXES + [(2.0 ** 20, 2.0 ** 20 + 1.0), (-3 * 2.0 ** 10, -3 * 2.0 ** 10 + 0.5), (2.0 ** 20, 2.0 ** 20 + 2.0 ** -8),
+                    (0.0, 2.0 ** -30), (2.0 ** -30, 2.0 ** -30 + 2.0 ** -40), (-2.0 ** -20, 2.0 ** -20)]
+AMPS = [0, 0, 0, -60, -30, -10, 10, 30]                       # function components are scaled by 2^k
+ARGMODES = ['same', 'same', 'copies', 'views', 'fortran', 'strided', 'list', 'tuple', 'int', 'f32']
+OBSERVERS = ['num_points', 'final_combi', 'get_result', 'check_scheme', 'call', 'num_each_dim', 'points_weights']
+CONTMODES = ['a', 'a', 'b', 'c', 'd', 'e']
+SENTINEL = -7.25e250
+
+
+def gen_case_dw(rng, tier, small=False):
     c = dw.gen_case(rng, tier, 0)
+    r = rng.random()
+    if r < 0.14:                                              # (i) d = 1
+        c['dim'] = 1
+        c['lmin'] = rng.choice([1, 1, 2, 3])
+        c['lmax'] = c['lmin'] + rng.choice([0, 1, 2]) if c['lmin'] > 1 else rng.choice([2, 3, 4])
+        c['steps'] = rng.randrange(1, 6)
     dim = c['dim']
-    # the number of hats grows quickly: keep the vector-valued integrand below ~250 components
+    # the number of hats grows quickly: keep the vector-valued integrand below ~300 components
     if dim == 4:
-        c['lmin'], c['lmax'], c['steps'] = 1, 2, min(c['steps'], 3)
+        c['lmin'], c['lmax'], c['steps'] = 1, 2, min(c['steps'], 2)
     if dim == 3 and c['lmax'] >= 3:
         c['lmin'], c['lmax'] = (1, 3) if rng.random() < 0.3 else (rng.choice([1, 2]), rng.choice([2, 3]))
         if c['lmin'] >= c['lmax']:
             c['lmin'] = c['lmax'] - 1
         if c['lmax'] < 2:
             c['lmax'] = 2
-        c['steps'] = min(c['steps'], 4)
+        c['steps'] = min(c['steps'], 3 if c['lmax'] >= 3 else 4)
+    if dim == 2 and rng.random() < 0.12:                      # (i) lmin = lmax, larger lmin
+        c['lmin'], c['lmax'] = rng.choice([(2, 2), (3, 3), (3, 4)])
+        c['steps'] = min(c['steps'], 3)
+    if small:
+        c['dim'] = dim = 2
+        c['lmin'], c['lmax'], c['steps'] = 1, 2, 2
+    ab = [rng.choice(DW_BOXES) for _ in range(dim)]
+    c['a'], c['b'] = [x[0] for x in ab], [x[1] for x in ab]
     c['mb'] = rng.random() < 0.15
     if c['mb']:
         c['boundary'] = False
-    c['npts'] = 6
+    c['amp'] = rng.choice(AMPS)
+    c['argmode'] = rng.choice(ARGMODES)
+    c['ptsmode'] = rng.choice(['list', 'list', 'array'])
+    c['sentinel'] = rng.random() < 0.5
+    c['observers'] = [([rng.choice(OBSERVERS) for _ in range(rng.randrange(1, 4))] if rng.random() < 0.4 else []) for _ in range(c['steps'] + 1)]
+    c['cont'] = [rng.choice(CONTMODES) for _ in range(c['steps'])]
+    c['legs'] = []
+    if not small and rng.random() < 0.3 and dim <= 3:          # (f) the SAME object is started again with another level range
+        l0 = rng.choice([1, 1, 2])
+        l1 = max(2, l0 + rng.choice([0, 1, 1]))
+        if dim == 3:
+            l1 = min(l1, 2 if l0 == 1 else 3)
+        c['legs'].append(dict(lmin=l0, lmax=l1, steps=rng.randrange(0, 3), seed=rng.randrange(1 << 30)))
+    # the interpolant is evaluated for every hat at every point (model: 2^d function evaluations per component): bound hats x points
+    nh = len(initial_hats(dim, c['lmin'], c['lmax'], c['boundary'])) if not c['mb'] else 0
+    c['npts'] = max(1, min(6, 400 // max(nh, 1)))
     return c
+
+
+def gen_case_big(rng):
+    """(h) sizes beyond internal thresholds: component grids with > 1024 points and a single interpolation call with > 2048 points"""
+    c = gen_case_dw(rng, 'quick', small=True)
+    c.update(dim=2, lmin=rng.choice([1, 2]), lmax=5, steps=1, a=[0.0, -1.0], b=[1.0, 1.0], mb=False, legs=[], npts=1, bigpts=rng.choice([2049, 2500]),
+             observers=[[], ['num_points']], cont=['a'], boundary=rng.random() < 0.5)
+    return c
+
+
+def leg_configs(case):
+    """[(lmin, lmax, steps or None, fixed bens or None, seed)] of all legs of the history on ONE object"""
+    out = [(case['lmin'], case['lmax'], case['steps'], case.get('bens'), case['seed'])]
+    for lg in case.get('legs') or []:
+        out.append((lg['lmin'], lg['lmax'], lg['steps'], lg.get('bens'), lg['seed']))
+    return out
 
 
 def _make_dw_function(case, hats, fns):
@@ -130,6 +191,7 @@ def _make_dw_function(case, hats, fns):
     dim = case['dim']
     a = [float(x) for x in case['a']]
     b = [float(x) for x in case['b']]
+    amp = 2.0 ** case.get('amp', 0)
     # distinct 1D hats per dimension and the index table of the tensor hats
     tabs, index = [], []
     for d in range(dim):
@@ -158,12 +220,12 @@ def _make_dw_function(case, hats, fns):
                         c = a[d] + i * h
                         cols[:, n] = np.maximum(0.0, 1.0 - np.abs(x[:, d] - c) / h)
                     prod *= cols[:, index[d]]
-                out[:, 1:1 + len(hats)] = prod
+                out[:, 1:1 + len(hats)] = amp * prod
             for n, cf in enumerate(lin):
                 v = np.ones(x.shape[0])
                 for d, (al, be) in enumerate(cf):
                     v = v * (al * x[:, d] + be)
-                out[:, 1 + len(hats) + n] = v
+                out[:, 1 + len(hats) + n] = amp * v
             return out
 
         def eval(self, coordinates):
@@ -171,25 +233,75 @@ def _make_dw_function(case, hats, fns):
     return VecF()
 
 
-def impl_dw(case):
-    """One scripted history on the real dimension-wise strategy with the vector-valued integrand."""
+def make_bounds(case, mode):
+    """(b) argument-object variants of the domain bounds: returns (A, B) for the grid and (A2, B2) for the strategy"""
+    import numpy as np
+    a = [float(x) for x in case['a']]
+    b = [float(x) for x in case['b']]
+    if mode == 'int' and not all(x == int(x) for x in a + b):
+        mode = 'same'
+    if mode == 'f32' and not all(float(np.float32(x + (y - x) * k / 4096.0)) == x + (y - x) * k / 4096.0 for x, y in zip(a, b) for k in (0, 1, 4095, 4096)):
+        mode = 'same'             # float32 bounds only where float32 can represent the grid coordinates down to level 12
+    if mode == 'copies':
+        return (np.array(a), np.array(b)), (np.array(a), np.array(b)), mode
+    if mode == 'views':
+        p = np.array([a, b, [9.5] * len(a)])
+        return (p[0], p[1]), (p[0], p[1]), mode
+    if mode == 'fortran':
+        p = np.asfortranarray(np.array([a, b]))
+        return (p[0, :], p[1, :]), (p[0, :], p[1, :]), mode
+    if mode == 'strided':
+        p = np.zeros(2 * len(a) + 1)
+        q = np.zeros(2 * len(a) + 1)
+        p[::2][:len(a)] = a
+        q[1::2][:len(a)] = b
+        return (p[::2][:len(a)], q[1::2][:len(a)]), (p[::2][:len(a)], q[1::2][:len(a)]), mode
+    if mode == 'list':
+        A, B = list(a), list(b)
+    elif mode == 'tuple':
+        A, B = tuple(a), tuple(b)
+    elif mode == 'int':
+        A, B = np.array([int(x) for x in a]), np.array([int(x) for x in b])
+    elif mode == 'f32':
+        A, B = np.array(a, dtype=np.float32), np.array(b, dtype=np.float32)
+    else:
+        A, B = np.array(a), np.array(b)
+        mode = 'same'
+    return (A, B), (A, B), mode
+
+
+def _frozen(x):
+    import numpy as np
+    if isinstance(x, np.ndarray):
+        return ('nd', x.dtype.str, x.shape, x.tobytes())
+    return ('py', repr(x))
+
+
+def steps_dw(case):
+    """Generator: one history on ONE real dimension-wise strategy object (several legs = further performSpatiallyAdaptiv calls on the same
+    object); yields after every library call (a companion instance of another case is advanced there), returns the observations."""
     import numpy as np
     from sparseSpACE.spatiallyAdaptiveSingleDimension2 import SpatiallyAdaptiveSingleDimensions2
     from sparseSpACE.ErrorCalculator import ErrorCalculator
     from sparseSpACE.Grid import GlobalTrapezoidalGrid
     from sparseSpACE.GridOperation import Integration
 
-    rng = random.Random(case['seed'])
     dim = case['dim']
-    a = np.array(case['a'], dtype=float)
-    b = np.array(case['b'], dtype=float)
     margin = dw.margin_of(case)
-    fixed = case.get('bens')
     mb = bool(case.get('mb'))
     frng = random.Random(case['seed'] ^ 0x0c04)
-    hats = [] if mb else initial_hats(dim, case['lmin'], case['lmax'], case['boundary'])
+    legs = leg_configs(case)
+    hats = []
+    if not mb:
+        for lmin, lmax, _, _, _ in legs:
+            for h in initial_hats(dim, lmin, lmax, case['boundary']):
+                if h not in hats:
+                    hats.append(h)
     fns = gen_lin_fns(frng, dim) if mb else []
     f = _make_dw_function(case, hats, fns)
+    ampf = 2.0 ** case.get('amp', 0)
+    (A, B), (A2, B2), argmode = make_bounds(case, case.get('argmode', 'same'))
+    st_rng = {'rng': None, 'fixed': None}
 
     class Scripted(ErrorCalculator):
         def __init__(self):
@@ -203,11 +315,12 @@ def impl_dw(case):
             if self.table is None:
                 conts = [self.sa.refinement.get_refinement_container_for_dim(d) for d in range(dim)]
                 sizes = [c.size() for c in conts]
+                fixed = st_rng['fixed']
                 if fixed is not None and self.round < len(fixed):
                     bens = [[float(Fraction(*x)) if isinstance(x, (list, tuple)) else float(x) for x in bd] for bd in fixed[self.round]]
                     mode = 'fixed'
                 else:
-                    mode, bens = dw.gen_benefits(rng, sizes, margin)
+                    mode, bens = dw.gen_benefits(st_rng['rng'], sizes, margin)
                 self.modes.append(mode)
                 self.table = {}
                 for d, c in enumerate(conts):
@@ -215,14 +328,13 @@ def impl_dw(case):
                         self.table[(d, o.start)] = bens[d][i] if i < len(bens[d]) else 0.0
             return self.table[(refine_object.this_dim, refine_object.start)]
 
-    grid = GlobalTrapezoidalGrid(a, b, boundary=case['boundary'], modified_basis=mb)
+    grid = GlobalTrapezoidalGrid(A, B, boundary=case['boundary'], modified_basis=mb)
     op = Integration(f, grid=grid, dim=dim, reference_solution=None)
     kw = dict(version=case['version'], operation=op, rebalancing=case['rebalancing'], rebalancing_safety_factor=case['safety'])
     if case['margin'] is not None:
         kw['margin'] = case['margin']
-    sa = SpatiallyAdaptiveSingleDimensions2(a, b, **kw)
-    ec = Scripted()
-    ec.sa = sa
+    sa = SpatiallyAdaptiveSingleDimensions2(A2, B2, **kw)
+    yield
     # evaluation points of the interpolant: lattice k/32 of the box and points of the lattice of level lmax+2 (grid points of the
     # initial tree and points that become grid points by refinement)
     aq = [Fraction(x) for x in case['a']]
@@ -235,55 +347,169 @@ def impl_dw(case):
             pts.append([aq[k] + (bq[k] - aq[k]) * Fraction(frng.randrange(0, den + 1), den) for k in range(dim)])
     else:
         pts = [[Fraction(*x) for x in p] for p in pts]
-    fpts = [tuple(float(x) for x in p) for p in pts]
+    allpts = list(pts)
+    for _ in range(max(0, case.get('bigpts', 0) - len(pts))):      # (h) one big interpolation call: oracle only
+        allpts.append([aq[k] + (bq[k] - aq[k]) * Fraction(frng.randrange(0, 1025), 1024) for k in range(dim)])
+    fpts = [tuple(float(x) for x in p) for p in allpts]
+    if case.get('ptsmode') == 'array':
+        fpts_arg = np.array(fpts)
+    else:
+        fpts_arg = list(fpts)
+    # (a) argument immutability: every object handed to the library, frozen at hand-over
+    handed = {'a (grid)': A, 'b (grid)': B, 'a (strategy)': A2, 'b (strategy)': B2, 'interpolation points': fpts_arg}
+    frozen = {k: _frozen(v) for k, v in handed.items()}
+    mutated, aliasing, observer_notes = [], [], []
 
-    def observe(res):
+    def check_args(where):
+        for k, v in handed.items():
+            if _frozen(v) != frozen[k] and not any(m[0] == k for m in mutated):
+                mutated.append([k, where, str(v)[:120]])
+
+    def normalised(v):
+        v = np.asarray(v, dtype=float).ravel().copy()
+        v[1:] = v[1:] / ampf
+        return [float(x) for x in v]
+
+    def observe(res, legno, step):
         st = dw._snapshot(sa, 0)
-        st['integral'] = [float(x) for x in np.asarray(res[3], dtype=float).ravel()]
+        st['integral'] = normalised(res[3])
         st['interp'] = None
+        vals = None
         if not mb and fpts:
-            vals = np.asarray(sa(list(fpts)), dtype=float)
-            st['interp'] = [[float(x) for x in row] for row in vals]
+            vals = sa(fpts_arg)
+            check_args('leg %d step %d: __call__' % (legno, step))
+            arr = np.asarray(vals, dtype=float)
+            st['interp'] = [normalised(row) for row in arr]
+        if case.get('sentinel'):
+            # (c) returned-object aliasing: overwrite what the calls returned; the live object must not see it
+            for name, obj in (('performSpatiallyAdaptiv/continue_adaptive_refinement()[3]', res[3]), ('__call__ result', vals)):
+                if isinstance(obj, np.ndarray) and obj.flags.writeable:
+                    obj[...] = SENTINEL
+                elif isinstance(obj, list):
+                    for k in range(len(obj)):
+                        if isinstance(obj[k], np.ndarray):
+                            obj[k][...] = SENTINEL
+                        else:
+                            obj[k] = SENTINEL
+            now = normalised(op.get_result())
+            if now != st['integral'] and not aliasing:
+                aliasing.append(['reported result', 'leg %d step %d' % (legno, step), str(now[:3])])
+            if vals is not None:
+                again = np.asarray(sa(fpts_arg), dtype=float)
+                if [normalised(row) for row in again] != st['interp'] and not aliasing:
+                    aliasing.append(['__call__ result', 'leg %d step %d' % (legno, step), str(again[0][:3])])
         return st
 
-    np_float_crash = None
-    try:
-        res = sa.performSpatiallyAdaptiv(case['lmin'], case['lmax'], ec, tol=-1, max_evaluations=1, print_output=False)
-    except AttributeError as e:
-        if not (mb and "no attribute 'float'" in str(e)) or hasattr(np, 'float'):
-            raise
-        # known finding C04-dw-modified-basis-np-float: the surplus computation of the modified basis uses the alias np.float, which the
-        # pinned numpy no longer has.  The crash is reported; the rest of the property is evaluated on a fresh instance with the alias
-        # restored IN THIS WORKER for the duration of this case only.
-        import traceback
-        where = ''
-        for fr in reversed(traceback.extract_tb(e.__traceback__)):
-            if 'sparseSpACE' in fr.filename:
-                where = 'sparseSpACE/%s:%d' % (fr.filename.rsplit('/', 1)[-1], fr.lineno)
-                break
-        np_float_crash = ['AttributeError', where, str(e)[:120]]
-        np.float = float
+    def run_observers(names, legno, step):
+        """(e) public observer calls on the live object between the steps; the reported result must not change"""
+        before = normalised(op.get_result())
+        for name in names:
+            try:
+                if name == 'num_points':
+                    sa.get_total_num_points()
+                elif name == 'final_combi':
+                    sa.evaluate_final_combi()
+                elif name == 'get_result':
+                    op.get_result()
+                elif name == 'check_scheme':
+                    sa.check_combi_scheme()
+                elif name == 'call':
+                    sa(fpts_arg[:2]) if len(fpts) else None
+                elif name == 'num_each_dim':
+                    sa.get_num_points_each_dim()
+                elif name == 'points_weights':
+                    if max(len(t) for t in dw._snapshot(sa, 0)['trees']) <= 12 and dim <= 3:
+                        sa.get_points_and_weights()
+            except Exception as e:
+                observer_notes.append([name, type(e).__name__, str(e)[:100], 'leg %d step %d' % (legno, step)])
+            check_args('leg %d step %d: observer %s' % (legno, step, name))
+        after = normalised(op.get_result())
+        if after != before:                                  # decided by the checker with the natural scales (re-evaluation may round differently)
+            observer_notes.append(['result-after-observers', 'observers %s' % names, 'leg %d step %d' % (legno, step), before, after])
+
+    def cont(mode):
+        if mode == 'b':
+            return sa.continue_adaptive_refinement(tol=-1, max_evaluations=2)
+        if mode == 'c':
+            return sa.continue_adaptive_refinement(tol=-1, max_time=0.0)
+        if mode == 'd':
+            return sa.continue_adaptive_refinement(-1, None, 1)
+        if mode == 'e':
+            return sa.continue_adaptive_refinement(tol=-1, max_evaluations=1, min_evaluations=0)
+        return sa.continue_adaptive_refinement(tol=-1, max_evaluations=1)
+
+    out_legs = []
+    for legno, (lmin, lmax, steps, fixed, seed) in enumerate(legs):
+        st_rng['rng'] = random.Random(seed)
+        st_rng['fixed'] = fixed
+        ec = Scripted()
+        ec.sa = sa
+        res = sa.performSpatiallyAdaptiv(lmin, lmax, ec, tol=-1, max_evaluations=1, print_output=False)
+        check_args('leg %d: performSpatiallyAdaptiv' % legno)
+        yield
+        states = [observe(res, legno, 0)]
+        bens_used, selected, max_size = [], [], 0
+        nsteps = len(fixed) if fixed is not None else steps
+        for step in range(nsteps):
+            obs = (case.get('observers') or [])
+            if legno == 0 and step < len(obs) and obs[step]:
+                run_observers(obs[step], legno, step)
+                yield
+            conts = [sa.refinement.get_refinement_container_for_dim(d) for d in range(dim)]
+            bens_used.append([[sx.rat(o.benefit) for o in c.get_objects()] for c in conts])
+            before = [[(o.start, o.end) for o in c.get_objects()] for c in conts]
+            sa.refine()
+            check_args('leg %d step %d: refine' % (legno, step + 1))
+            yield
+            after = [set((o.start, o.end) for o in sa.refinement.get_refinement_container_for_dim(d).get_objects()) for d in range(dim)]
+            selected.append([[i for i, se in enumerate(before[d]) if se not in after[d]] for d in range(dim)])
+            ec.table = None
+            ec.round += 1
+            cm = (case.get('cont') or [])
+            res = cont(cm[step] if legno == 0 and step < len(cm) else 'a')
+            check_args('leg %d step %d: continue_adaptive_refinement' % (legno, step + 1))
+            yield
+            states.append(observe(res, legno, step + 1))
+            max_size = max(max_size, max(len(t) for t in states[-1]['trees']))
+        leg_hats = initial_hats(dim, lmin, lmax, case['boundary']) if not mb else []
+        sel = [0] + [1 + hats.index(h) for h in leg_hats] + [1 + len(hats) + n for n in range(len(fns))]
+        for st in states:                    # components of THIS leg: driver, the hats of its initial space, the linear products
+            st['integral'] = [st['integral'][k] for k in sel]
+            if st['interp'] is not None:
+                st['interp'] = [[row[k] for k in sel] for row in st['interp']]
+        out_legs.append(dict(states=states, bens=bens_used, selected=selected, modes=ec.modes, max_size=max_size, lmin=lmin, lmax=lmax,
+                             hats=leg_hats, fns=fns, pts=pts))
+    return dict(legs=out_legs, mutated=mutated, aliasing=aliasing, observer_notes=observer_notes, argmode=argmode,
+                allpts=allpts if case.get('bigpts') else None)
+
+
+def _drive(gen, companion):
+    """advance the primary history; after each of its library calls advance the companion instance (other case, same process)"""
+    comp_exc = None
+    while True:
         try:
-            return dict(impl_dw(case), np_float_crash=np_float_crash)
-        finally:
-            del np.float
-    states = [observe(res)]
-    bens_used, selected, max_size = [], [], 0
-    nsteps = len(fixed) if fixed is not None else case['steps']
-    for step in range(nsteps):
-        conts = [sa.refinement.get_refinement_container_for_dim(d) for d in range(dim)]
-        bens_used.append([[sx.rat(o.benefit) for o in c.get_objects()] for c in conts])
-        before = [[(o.start, o.end) for o in c.get_objects()] for c in conts]
-        sa.refine()
-        after = [set((o.start, o.end) for o in sa.refinement.get_refinement_container_for_dim(d).get_objects()) for d in range(dim)]
-        selected.append([[i for i, se in enumerate(before[d]) if se not in after[d]] for d in range(dim)])
-        ec.table = None
-        ec.round += 1
-        res = sa.continue_adaptive_refinement(tol=-1, max_evaluations=1)
-        states.append(observe(res))
-        max_size = max(max_size, max(len(t) for t in states[-1]['trees']))
-    return dict(states=states, bens=bens_used, selected=selected, modes=ec.modes, max_size=max_size,
-                hats=hats, fns=fns, pts=pts, np_float_crash=None)
+            next(gen)
+        except StopIteration as e:
+            return e.value, comp_exc
+        if companion is not None:
+            try:
+                next(companion)
+            except StopIteration:
+                companion = None
+            except Exception as e:          # the companion's own failure is reported, the primary goes on alone
+                comp_exc = [type(e).__name__, str(e)[:200]]
+                companion = None
+
+
+def _steps_of(case):
+    return steps_dw(case) if case.get('strategy', 'dw') == 'dw' else steps_es(case)
+
+
+def impl_dw(case):
+    comp = case.get('companion')
+    res, comp_exc = _drive(steps_dw(case), _steps_of(comp) if comp else None)
+    res['companion_exc'] = comp_exc
+    return res
 
 
 def jsonable_bens(bens):
@@ -294,40 +520,68 @@ def jsonable_pts(pts):
     return [[[x.numerator, x.denominator] for x in p] for p in pts]
 
 
-def close(x, exact):
-    return abs(x - float(exact)) <= TOL * (1.0 + abs(float(exact)))
+def close(x, exact, scale=None):
+    """rounded class, purely relative: |impl - exact| <= TOL * scale, scale = |exact| unless a natural scale of the quantity is given"""
+    ex = float(exact)
+    s_ = abs(ex) if scale is None else float(scale)
+    return abs(x - ex) <= TOL * s_ or x == ex
+
+
+def scales_dw(case, r):
+    """natural scales (amplitude 1; the worker divides by the amplitude): integral / point value of every function of the leg"""
+    a = [Fraction(x) for x in case['a']]
+    b = [Fraction(x) for x in case['b']]
+    vol = Fraction(1)
+    for ad, bd in zip(a, b):
+        vol *= bd - ad
+    sint, sval = [], []
+    for j, i in r['hats']:
+        sint.append(hat_integral(a, b, j, i))
+        sval.append(Fraction(1))
+    for cf in r['fns']:
+        m = Fraction(1)
+        for (al, be), ad, bd in zip(cf, a, b):
+            m *= max(abs(al * ad + be), abs(al * bd + be))
+        sint.append(m * vol)
+        sval.append(m)
+    return sint, sval
 
 
 def oracle_dw(case, r):
-    """The property's own predicate on the implementation alone.  Returns (initial_defects, first_loss, int_ok_states) where
-    int_ok_states[k] = all integrals exact in state k and first_loss is None or
+    """The property's own predicate on the implementation alone, for one leg (= one run of performSpatiallyAdaptiv + refinement steps).
+    Returns (initial_defects, first_loss, int_ok_states) where int_ok_states[k] = all integrals exact in state k and first_loss is None or
     dict(step, observable, what, impl, exact[, point]) for the first state in which a function that the INITIAL state treated exactly
     is no longer integrated / interpolated exactly."""
     a = [Fraction(x) for x in case['a']]
     b = [Fraction(x) for x in case['b']]
-    hats, fns, pts = r['hats'], r['fns'], r['pts']
+    hats, fns = r['hats'], r['fns']
+    pts = r.get('allpts') or r['pts']
     names = [('hat', j, i) for j, i in hats] + [('lin', cf) for cf in fns]
+    sint, sval = scales_dw(case, r)
     exact_int = [hat_integral(a, b, j, i) for j, i in hats] + [lin_integral(a, b, cf) for cf in fns]
     exact_val = [[hat_value(a, b, j, i, p) for j, i in hats] for p in pts]
     initial_defects = []
-    int_ok_states = [all(close(st['integral'][1 + n], ex) for n, ex in enumerate(exact_int)) for st in r['states']]
+    int_ok_states = [all(close(st['integral'][1 + n], ex, sint[n]) for n, ex in enumerate(exact_int)) for st in r['states']]
     ok_int = [True] * len(names)
     ok_val = [[True] * len(hats) for _ in pts]
     for step, st in enumerate(r['states']):
         integ = st['integral'][1:]
         for n, ex in enumerate(exact_int):
-            good = close(integ[n], ex)
+            good = close(integ[n], ex, sint[n])
             if step == 0:
                 ok_int[n] = good
                 if not good:
                     initial_defects.append(dict(observable='integral', what=names[n], impl=integ[n], exact=str(ex)))
             elif ok_int[n] and not good:
                 return initial_defects, dict(step=step, observable='integral', what=names[n], impl=integ[n], exact=str(ex)), int_ok_states
+        if st['interp'] is not None and len(st['interp']) != len(pts):
+            return initial_defects, dict(step=step, observable='interpolant', what='number of returned values', impl=len(st['interp']),
+                                         exact=str(len(pts))), int_ok_states
         if st['interp'] is not None:
             for k, p in enumerate(pts):
                 row = st['interp'][k][1:]
                 for n in range(len(hats)):
-                    good = close(row[n], exact_val[k][n])
+                    good = close(row[n], exact_val[k][n], sval[n])
                     if step == 0:
                         ok_val[k][n] = good
                         if not good:
@@ -340,9 +594,10 @@ def oracle_dw(case, r):
 
 
 def compare_dw(case, r, mr):
-    """implementation vs model (sub 0 / sub 1).  Returns None or dict(step, observable, ...)."""
+    """implementation vs model (sub 0 / sub 1), one leg.  Returns None or dict(step, observable, ...)."""
     if mr is None or sx.is_err(mr) or isinstance(mr, tuple):
         return dict(step=0, observable='model-error', model=str(mr)[:200])
+    sint, sval = scales_dw(case, r)
     if case.get('mb'):
         states = mr
     else:
@@ -365,20 +620,25 @@ def compare_dw(case, r, mr):
         for n, mv in enumerate(mint):
             if sx.is_err(mv):
                 return dict(step=step, observable='integral', component=n, impl=integ[n], model='compute_weights raises')
-            if not close(integ[n], sx.q(mv)):
+            if not close(integ[n], sx.q(mv), sint[n]):
                 return dict(step=step, observable='integral', component=n, impl=integ[n], model=str(sx.q(mv)))
         if not case.get('mb') and st['interp'] is not None:
             for k, row in enumerate(mval0):
                 for n in range(len(perm)):
                     mv = sx.q(row[perm[n]])
-                    if not close(st['interp'][k][1 + n], mv):
+                    if not close(st['interp'][k][1 + n], mv, sval[n]):
                         return dict(step=step, observable='interpolant', component=n, point=[str(x) for x in r['pts'][k]],
                                     impl=st['interp'][k][1 + n], model=str(mv))
     return None
 
 
+def leg_case(case, r):
+    """the case as the model sees one leg: a fresh history with the leg's level range"""
+    return dict(case, lmin=r['lmin'], lmax=r['lmax'])
+
+
 def model_inputs_dw(case, r):
-    hist = dw.model_case(case, r)[1]
+    hist = dw.model_case(leg_case(case, r), r)[1]
     if case.get('mb'):
         return (1, [hist, True, r['fns']])
     return (0, [hist, r['pts']])
@@ -413,6 +673,70 @@ def corpus_dw():
     return out
 
 
+def box_class(a, b):
+    w = abs(b - a)
+    far = max(abs(a), abs(b)) >= 2 ** 9
+    tiny = w <= 2.0 ** -7
+    return 'far+tiny' if far and tiny else ('far' if far else ('tiny' if tiny else 'O(1)'))
+
+
+def count_axes(chk, c, r, prefix):
+    """histograms of the lesson axes (a)-(i) as actually drawn"""
+    chk.count('%saxis-b:argmode=%s' % (prefix, (r or {}).get('argmode', c.get('argmode', 'same'))))
+    chk.count('%saxis-b:points-container=%s' % (prefix, c.get('ptsmode', 'list')))
+    chk.count('%saxis-c:returned-arrays-overwritten=%s' % (prefix, bool(c.get('sentinel'))))
+    chk.count('%saxis-d:amplitude=2^%d' % (prefix, c.get('amp', 0)))
+    for x, y in zip(c['a'], c['b']):
+        chk.count('%saxis-d:box=%s' % (prefix, box_class(float(Fraction(x)), float(Fraction(y)))))
+    for names in c.get('observers') or []:
+        for n in names:
+            chk.count('%saxis-e:observer=%s' % (prefix, n))
+    for m in c.get('cont') or []:
+        chk.count('%saxis-f:continue-call=%s' % (prefix, m))
+    chk.count('%saxis-f:runs-on-one-object=%d' % (prefix, 1 + len(c.get('legs') or [])))
+    chk.count('%saxis-g:companion=%s' % (prefix, (c.get('companion') or {}).get('strategy', 'none')))
+    if c.get('bigpts'):
+        chk.count('%saxis-h:interpolation-call-with-%d-points' % (prefix, c['bigpts']))
+    chk.count('%saxis-i:dim=%d' % (prefix, c['dim']))
+    chk.count('%saxis-i:lmin=%d,lmax-lmin=%d' % (prefix, c['lmin'], c['lmax'] - c['lmin']))
+
+
+def side_oracles(chk, strat, c, r, fixed_case, scales=None):
+    """axes (a), (c), (e), (g): argument immutability, returned-object aliasing, observer calls, companion instance.
+    scales: natural scale of every function component (index 1..) of the reported result"""
+    rc = 0
+    for name, where, now in r.get('mutated') or []:
+        chk.violation('oracle:C04/argument-immutability', 'argument-mutated', dict(strategy=strat, argument=name.split(' (')[0], argmode=r.get('argmode')),
+                      fixed_case, dict(argument=name, first_seen_after=where, value_now=now), failing_input=True)
+        rc = 1
+    for what, where, now in r.get('aliasing') or []:
+        chk.violation('oracle:C04/returned-object', 'result-aliases-internal-state', dict(strategy=strat, what=what), fixed_case,
+                      dict(overwritten=what, where=where, live_result_now=now), failing_input=True)
+        rc = 1
+    for note in r.get('observer_notes') or []:
+        if note[0] == 'result-after-observers':
+            before, after = note[3], note[4]
+            # component 0 is the arbitrary refinement-driving function: whether a re-evaluation reproduces its accumulated value is C05's
+            # statement, not C04's (it does not for automatic_extend_split); it is only counted here
+            if not close(after[0], before[0], max(abs(before[0]), abs(after[0])) * 100):
+                chk.count('%s:axis-e:driver-component-changed-by-observers(C05-territory)' % strat)
+            bad = [n for n in range(1, len(before)) if not close(after[n], before[n], scales[n - 1] if scales and n - 1 < len(scales) else None)]
+            if bad:
+                chk.violation('oracle:C04/observer-calls', 'observer-changes-result', dict(strategy=strat), fixed_case,
+                              dict(observers=note[1], where=note[2], component=bad[0], before=before[bad[0]], after=after[bad[0]]), failing_input=True)
+                rc = 1
+        else:
+            chk.count('%s:observer-raises:%s:%s' % (strat, note[0], note[1]))
+            chk.violation('oracle:C04/observer-calls', 'observer-raises', dict(strategy=strat, observer=note[0], exc=note[1]), fixed_case,
+                          dict(note=note), failing_input=True)
+            rc = 1
+    if r.get('companion_exc'):
+        chk.violation('corr:C04/companion', 'impl-exception', dict(strategy='companion:' + (c.get('companion') or {}).get('strategy', '?'),
+                                                                   exc=r['companion_exc'][0]), fixed_case, dict(impl=str(r['companion_exc'])), failing_input=True)
+        rc = 1
+    return rc
+
+
 def check_dw(chk, cases, verbose=False):
     impl = run_impl(impl_dw, cases, limit=240)
     slow = [i for i, (st, r) in enumerate(impl) if st == 'timeout']
@@ -420,88 +744,114 @@ def check_dw(chk, cases, verbose=False):
         chk.count('timeouts-retried', len(slow))
         for i, res in zip(slow, run_impl(impl_dw, [cases[i] for i in slow], nproc=4, limit=900)):
             impl[i] = res
-    okidx = [i for i, (st, r) in enumerate(impl) if st == 'ok']
-    mres = dict(zip(okidx, run_model(PROP, [model_inputs_dw(cases[i], impl[i][1]) for i in okidx], nproc=16)))
-    rot = dict(zip(okidx, run_model(PROP, [(3, dw.model_case(cases[i], impl[i][1])[1]) for i in okidx], nproc=16)))
+    pairs = [(i, k) for i, (st, r) in enumerate(impl) if st == 'ok' for k in range(len(r['legs']))]
+    mres = dict(zip(pairs, run_model(PROP, [model_inputs_dw(cases[i], impl[i][1]['legs'][k]) for i, k in pairs], nproc=16)))
+    rot = dict(zip(pairs, run_model(PROP, [(3, dw.model_case(leg_case(cases[i], impl[i][1]['legs'][k]), impl[i][1]['legs'][k])[1]) for i, k in pairs], nproc=16)))
     keys, samples = [], []
     rc = 0
     for i, c in enumerate(cases):
-        st, r = impl[i]
+        st, res = impl[i]
         chk.count('dw:dim=%d' % c['dim']); chk.count('dw:version=%d' % c['version'])
         chk.count('dw:rebalancing=%s' % c['rebalancing']); chk.count('dw:boundary=%s' % c['boundary'])
         chk.count('dw:modified_basis=%s' % bool(c.get('mb')))
+        count_axes(chk, c, res if st == 'ok' else None, 'dw:')
         if st != 'ok':
-            chk.violation('corr:C04/dw-history', 'impl-exception', dict(strategy='dw', exc=(r[0] if r else st), where=(r[1] if r else '')),
-                          c, dict(impl=str(r)), failing_input=True)
+            chk.violation('corr:C04/dw-history', 'impl-exception', dict(strategy='dw', exc=(res[0] if res else st), where=(res[1] if res else ''),
+                                                                        argmode=c.get('argmode'), dim=c['dim']),
+                          c, dict(impl=str(res)), failing_input=True)
             rc = 1
             continue
         chk.traces += 1
-        if r.get('np_float_crash'):
-            chk.violation('oracle:C04/dw-modified-basis-runs', 'impl-exception',
-                          dict(strategy='dw', mb=True, exc=r['np_float_crash'][0], attribute='np.float'),
-                          dict(c, steps=0, bens=[]), dict(impl=str(r['np_float_crash'])), failing_input=True)
-            chk.count('dw:modified-basis-runs-with-np.float-restored')
-        nst = len(r['states'])
-        chk.count('dw:states', nst)
-        chk.count('dw:functions_checked', (len(r['hats']) + len(r['fns'])) * nst)
-        fixed_case = dict(c, bens=jsonable_bens(r['bens']), steps=len(r['bens']), pts=jsonable_pts(r['pts']))
-        flags = rot.get(i)
-        if flags is None or sx.is_err(flags) or isinstance(flags, tuple) or any(sx.is_err(x) for x in flags):
-            flags = None
+        legs = res['legs']
 
-        def rotated(step):
-            return None if flags is None or step >= len(flags) else bool(flags[step])
-        if flags is not None and c['rebalancing']:
-            chk.count('dw:rebalancing-histories-with-rotation' if flags[-1] else 'dw:rebalancing-histories-without-rotation')
-        initial_defects, loss, int_ok_states = oracle_dw(c, r)
-        diff = compare_dw(c, r, mres.get(i))
-        mkeeps = None
-        if c.get('mb') and diff is None:
-            for ms in mres[i]:
-                chk.count('checker:lin_mod_okb=%s' % bool(ms[0]))
-        if not c.get('mb') and diff is None:
-            mkeeps = [bool(ms[0]) for ms in mres[i][1]]
-            chk.count('checker:dw_keeps_initial_space evaluations', len(mkeeps))
-        if verbose:
-            print('states %d, hats %d, linear products %d, points %d' % (nst, len(r['hats']), len(r['fns']), len(r['pts'])))
-            for step, s_ in enumerate(r['states']):
-                print('  step %d: sizes %s lmax %s components %d rotation-so-far %s checker dw_keeps_initial_space %s' % (
-                    step, [len(t) for t in s_['trees']], s_['lmax'], len(s_['scheme']), rotated(step), None if mkeeps is None else mkeeps[step]))
-            print('  property predicate:', 'holds' if loss is None else 'FAILS ' + str(loss))
-            print('  model vs implementation:', 'agree' if diff is None else 'DIFFER ' + str(diff))
-        if initial_defects:
-            # a function of the initial (lmin,lmax) sparse-grid space (a product of linear functions) is not even treated exactly by the
-            # INITIAL configuration: the initial combination / quadrature itself is broken (never the case on the pinned tree)
-            chk.violation('oracle:C04/dw-initial-state', 'dw-initial-state-not-exact', dict(boundary=c['boundary'], mb=bool(c.get('mb'))),
-                          dict(fixed_case, bens=[], steps=0), dict(defects=str(initial_defects[:3])), failing_input=True)
-            rc = 1
-        if loss is not None:
-            step = loss['step']
-            kind = 'dw-linear-lost' if c.get('mb') else 'dw-initial-hat-lost'
-            sig = dict(version=c['version'], rotation_occurred=rotated(step), observable=loss['observable'])
-            fc = dict(fixed_case, bens=jsonable_bens(r['bens'][:step]), steps=step)
-            chk.violation('oracle:C04/dw-' + loss['observable'], kind, sig, fc,
-                          dict(loss, rebalancing=c['rebalancing'], corr=str(diff)[:300]), failing_input=True)
-            chk.count('dw:histories-losing-exactness')
-            rc = 1
-        if diff is not None:
-            step = diff['step']
-            chk.violation('corr:C04/dw-' + diff['observable'], 'dw-model-differs', dict(observable=diff['observable'], mb=bool(c.get('mb'))),
-                          dict(fixed_case, bens=jsonable_bens(r['bens'][:step]), steps=step), diff, failing_input=False)
-            rc = 1
-        elif mkeeps is not None:
-            # verified checker vs oracle: the checker must reject exactly the states in which the implementation lost an integral
-            if mkeeps != int_ok_states:
-                chk.violation('checker:dw_keeps_initial_space', 'dw-checker-disagrees', {}, fixed_case,
+        def fixed(upto_leg, upto_step):
+            """the replayable case: all legs before upto_leg complete, leg upto_leg cut after upto_step steps"""
+            fc = dict(c, pts=jsonable_pts(legs[0]['pts']))
+            cut = lambda k: jsonable_bens(legs[k]['bens'] if k < upto_leg else legs[k]['bens'][:upto_step])
+            fc['bens'] = cut(0)
+            fc['steps'] = len(fc['bens'])
+            fc['legs'] = [dict(lg, bens=cut(k + 1), steps=len(cut(k + 1))) for k, lg in enumerate((c.get('legs') or [])[:upto_leg])]
+            return fc
+        full_case = fixed(len(legs) - 1, 10 ** 6)
+        # scales of the union of function components as the worker orders them: hats of all legs (first occurrence), then the linear products
+        uni = []
+        for lg in legs:
+            for h in lg['hats']:
+                if h not in uni:
+                    uni.append(h)
+        rc = max(rc, side_oracles(chk, 'dw', c, res, full_case, scales_dw(c, dict(hats=uni, fns=legs[0]['fns']))[0]))
+        done = False
+        for k, r in enumerate(legs):
+            lc = leg_case(c, r)
+            if res.get('allpts') and k == 0:
+                r = dict(r, allpts=res['allpts'])
+            nst = len(r['states'])
+            chk.count('dw:states', nst)
+            chk.count('dw:functions_checked', (len(r['hats']) + len(r['fns'])) * nst)
+            flags = rot.get((i, k))
+            if flags is None or sx.is_err(flags) or isinstance(flags, tuple) or any(sx.is_err(x) for x in flags):
+                flags = None
+
+            def rotated(step):
+                return None if flags is None or step >= len(flags) else bool(flags[step])
+            if flags is not None and c['rebalancing']:
+                chk.count('dw:rebalancing-histories-with-rotation' if flags[-1] else 'dw:rebalancing-histories-without-rotation')
+            initial_defects, loss, int_ok_states = oracle_dw(lc, r)
+            diff = compare_dw(lc, r, mres.get((i, k)))
+            mkeeps = None
+            if c.get('mb') and diff is None:
+                for ms in mres[(i, k)]:
+                    chk.count('checker:lin_mod_okb=%s' % bool(ms[0]))
+            if not c.get('mb') and diff is None:
+                mkeeps = [bool(ms[0]) for ms in mres[(i, k)][1]]
+                chk.count('checker:dw_keeps_initial_space evaluations', len(mkeeps))
+            if verbose:
+                print('run %d on the object (lmin %d, lmax %d): states %d, hats %d, linear products %d, points %d' % (
+                    k, r['lmin'], r['lmax'], nst, len(r['hats']), len(r['fns']), len(r['pts'])))
+                for step, s_ in enumerate(r['states']):
+                    print('  step %d: sizes %s lmax %s components %d rotation-so-far %s checker dw_keeps_initial_space %s' % (
+                        step, [len(t) for t in s_['trees']], s_['lmax'], len(s_['scheme']), rotated(step), None if mkeeps is None else mkeeps[step]))
+                print('  property predicate:', 'holds' if loss is None and not initial_defects else 'FAILS ' + str(loss or initial_defects[:1]))
+                print('  model vs implementation:', 'agree' if diff is None else 'DIFFER ' + str(diff))
+            if done:
+                continue
+            if initial_defects:
+                # a function of the initial (lmin,lmax) sparse-grid space (a product of linear functions) is not even treated exactly by the
+                # INITIAL configuration of this run: the initial combination / quadrature itself is broken (never on the pinned tree)
+                chk.violation('oracle:C04/dw-initial-state', 'dw-initial-state-not-exact',
+                              dict(boundary=c['boundary'], mb=bool(c.get('mb')), restart=k > 0, version=c['version']),
+                              fixed(k, 0), dict(run_on_object=k, defects=str(initial_defects[:3])), failing_input=True)
+                rc = 1
+                done = True
+            elif loss is not None:
+                step = loss['step']
+                kind = 'dw-linear-lost' if c.get('mb') else 'dw-initial-hat-lost'
+                sig = dict(version=c['version'], rotation_occurred=rotated(step), observable=loss['observable'])
+                chk.violation('oracle:C04/dw-' + loss['observable'], kind, sig, fixed(k, step),
+                              dict(loss, run_on_object=k, rebalancing=c['rebalancing'], corr=str(diff)[:300]), failing_input=True)
+                chk.count('dw:histories-losing-exactness')
+                rc = 1
+                done = True
+            if diff is not None:
+                step = diff['step']
+                chk.violation('corr:C04/dw-' + diff['observable'], 'dw-model-differs',
+                              dict(observable=diff['observable'], mb=bool(c.get('mb')), restart=k > 0),
+                              fixed(k, step), dict(diff, run_on_object=k), failing_input=False)
+                rc = 1
+                done = True
+            elif mkeeps is not None and mkeeps != int_ok_states:
+                # verified checker vs oracle: the checker must reject exactly the states in which the implementation lost an integral
+                chk.violation('checker:dw_keeps_initial_space', 'dw-checker-disagrees', {}, fixed(k, 10 ** 6),
                               dict(checker_per_state=mkeeps, implementation_integrals_exact_per_state=int_ok_states), failing_input=False)
                 rc = 1
+        r = legs[0]
         nsplit = sum(len(s) for st_ in r['selected'] for s in st_)
         if len(r['bens']) >= 2 and nsplit >= 2:
             keys.append(('dw', c['dim'], c['lmin'], c['lmax'], c['version'], c['rebalancing'], c['boundary'], bool(c.get('mb')), str(r['selected'])))
             if len(samples) < 2:
-                samples.append(dict(case={k: c[k] for k in ('dim', 'lmin', 'lmax', 'version', 'rebalancing', 'boundary', 'mb', 'a', 'b')},
+                samples.append(dict(case={k: c.get(k) for k in ('dim', 'lmin', 'lmax', 'version', 'rebalancing', 'boundary', 'mb', 'a', 'b', 'amp', 'argmode')},
                                     split_positions_per_step=r['selected'], functions=len(r['hats']) + len(r['fns']),
-                                    final_lmax=r['states'][-1]['lmax'], lost=(None if loss is None else str(loss)[:200])))
+                                    final_lmax=r['states'][-1]['lmax']))
     return keys, samples, rc
 
 
@@ -521,38 +871,74 @@ def moment(a, b, e):
     return v
 
 
-def gen_case_es(rng, tier):
+ES_DOMAINS_X = ES_DOMAINS + [(2 ** 20, 2 ** 20 + 1), (-3 * 2 ** 10, -3 * 2 ** 10 + Fraction(1, 2)), (2 ** 20, 2 ** 20 + Fraction(1, 256)),
+                             (0, Fraction(1, 2 ** 30)), (Fraction(1, 2 ** 30), Fraction(1, 2 ** 30) + Fraction(1, 2 ** 40)), (Fraction(-1, 2 ** 20), Fraction(1, 2 ** 20))]
+
+
+def _axes_es(rng, c, nsteps):
+    c['amp'] = rng.choice(AMPS)
+    c['argmode'] = rng.choice(ARGMODES)
+    c['sentinel'] = rng.random() < 0.5
+    names = ['num_points', 'get_result', 'final_combi'] if c['strategy'] == 'es' else ['num_points', 'get_result']
+    c['observers'] = [([rng.choice(names) for _ in range(rng.randrange(1, 3))] if rng.random() < 0.4 else []) for _ in range(nsteps + 1)]
+    c['cont'] = [rng.choice(CONTMODES) for _ in range(nsteps)]
+    return c
+
+
+def gen_case_es(rng, tier, small=False):
     dim = rng.choice([2, 2, 3])
     lmin = rng.choice([1, 1, 2])
     span = rng.choice([1, 1, 2])
     if dim == 3 and lmin == 2:
         span = 1
-    dom = [rng.choice(ES_DOMAINS) for _ in range(dim)]
-    if len(set(dom)) == 1:                 # not cubic
+    steps = rng.randrange(2, 6 if dim == 2 else 5)
+    if rng.random() < 0.1:                 # (i) d = 1
+        dim, steps = 1, rng.randrange(2, 6)
+    if small:
+        dim, lmin, span, steps = 2, 1, 1, 2
+    dom = [rng.choice(ES_DOMAINS_X) for _ in range(dim)]
+    if len(set(dom)) == 1 and dim > 1:     # not cubic
         dom[0] = rng.choice([d for d in ES_DOMAINS if d != dom[1]])
-    return dict(strategy='es', dim=dim, version=rng.choice([0, 1, 2]), nrbe=rng.choice([0, 1, 2, 3]), auto=rng.random() < 0.4,
-                single=rng.random() < 0.4, lmin=lmin, lmax=lmin + span, steps=rng.randrange(2, 6 if dim == 2 else 5),
-                a=[str(Fraction(d[0])) for d in dom], b=[str(Fraction(d[1])) for d in dom], fn=rng.randrange(3), seed=rng.randrange(1 << 30))
+    c = dict(strategy='es', dim=dim, version=rng.choice([0, 1, 2]), nrbe=rng.choice([0, 1, 2, 3]), auto=rng.random() < 0.4,
+             single=rng.random() < 0.4, lmin=lmin, lmax=lmin + span, steps=steps,
+             a=[str(Fraction(d[0])) for d in dom], b=[str(Fraction(d[1])) for d in dom], fn=rng.randrange(3), seed=rng.randrange(1 << 30))
+    return _axes_es(rng, c, steps)
 
 
-def gen_case_cell(rng, tier):
+def gen_case_cell(rng, tier, small=False):
     dim = rng.choice([2, 2, 3])
     lmin = rng.choice([1, 2]) if dim == 2 else 1
-    dom = [rng.choice(ES_DOMAINS) for _ in range(dim)]
-    if len(set(dom)) == 1:
+    steps = rng.randrange(2, 5 if dim == 2 else 4)
+    if rng.random() < 0.1:                 # (i) d = 1
+        dim, lmin = 1, rng.choice([1, 2, 3])
+    if small:
+        dim, lmin, steps = 2, 1, 2
+    dom = [rng.choice(ES_DOMAINS_X) for _ in range(dim)]
+    if len(set(dom)) == 1 and dim > 1:
         dom[0] = rng.choice([d for d in ES_DOMAINS if d != dom[1]])
-    return dict(strategy='cell', dim=dim, lmin=lmin, lmax=lmin, steps=rng.randrange(2, 5 if dim == 2 else 4),
-                a=[str(Fraction(d[0])) for d in dom], b=[str(Fraction(d[1])) for d in dom], fn=rng.randrange(3), seed=rng.randrange(1 << 30))
+    c = dict(strategy='cell', dim=dim, lmin=lmin, lmax=lmin, steps=steps,
+             a=[str(Fraction(d[0])) for d in dom], b=[str(Fraction(d[1])) for d in dom], fn=rng.randrange(3), seed=rng.randrange(1 << 30))
+    return _axes_es(rng, c, steps)
+
+
+def gen_companion(rng, primary='dw'):
+    """(g) a second live instance of the same or a sibling strategy class in the same process, advanced between the calls of the primary"""
+    k = primary if rng.random() < 0.6 else rng.choice(['dw', 'es', 'cell'])
+    c = gen_case_dw(rng, 'quick', small=True) if k == 'dw' else (gen_case_es(rng, 'quick', small=True) if k == 'es' else gen_case_cell(rng, 'quick', small=True))
+    c['strategy'] = k
+    c['observers'], c['sentinel'] = [], False
+    return c
 
 
 def _make_ml_function(case):
-    """component 0: the Genz function of C07 (drives automatic_extend_split); then x^e for every e in {0,1}^d"""
+    """component 0: the Genz function of C07 (drives automatic_extend_split); then 2^amp * x^e for every e in {0,1}^d"""
     import numpy as np
     from sparseSpACE.Function import Function
     from . import c07
     f0 = c07._make_function(case)
     exps = multilinear_exps(case['dim'])
     E = np.array(exps, dtype=float)
+    amp = 2.0 ** case.get('amp', 0)
 
     class VecF(Function):
         def output_length(self):
@@ -561,7 +947,7 @@ def _make_ml_function(case):
         def eval(self, coordinates):
             x = np.asarray(coordinates, dtype=float)
             v0 = np.asarray(f0.eval(tuple(float(t) for t in coordinates)), dtype=float).ravel()[0]
-            return np.concatenate(([v0], np.prod(np.where(E == 1.0, x[None, :], 1.0), axis=1)))
+            return np.concatenate(([v0], amp * np.prod(np.where(E == 1.0, x[None, :], 1.0), axis=1)))
     return VecF()
 
 
@@ -577,31 +963,46 @@ def _scripted(seed, tr):
     return Scripted()
 
 
-def impl_es(case):
-    """extend-split / cell strategy step by step; per state the reported integral and (extend-split) the leaf areas with the
-    component grids (coarsened level vector, coefficient) of their local combination"""
+def steps_es(case):
+    """Generator: extend-split / cell strategy step by step (yields after every library call); per state the reported integral and
+    (extend-split) the leaf areas with the component grids (coarsened level vector, coefficient) of their local combination"""
     import numpy as np
     from sparseSpACE.GridOperation import Integration
     from sparseSpACE.Grid import TrapezoidalGrid
     from . import c07
     dim = case['dim']
-    a = np.array([float(Fraction(x)) for x in case['a']])
-    b = np.array([float(Fraction(x)) for x in case['b']])
+    fcase = dict(case, a=[float(Fraction(x)) for x in case['a']], b=[float(Fraction(x)) for x in case['b']])
+    (A, B), (A2, B2), argmode = make_bounds(fcase, case.get('argmode', 'same'))
+    ampf = 2.0 ** case.get('amp', 0)
     tr = dict(step=0)
     f = _make_ml_function(case)
-    grid = TrapezoidalGrid(a=a, b=b, boundary=True)
+    grid = TrapezoidalGrid(a=A, b=B, boundary=True)
     op = Integration(f=f, grid=grid, dim=dim, reference_solution=None)
     if case['strategy'] == 'es':
         from sparseSpACE.spatiallyAdaptiveExtendSplit import SpatiallyAdaptiveExtendScheme
-        s = SpatiallyAdaptiveExtendScheme(a, b, number_of_refinements_before_extend=case['nrbe'], version=case['version'],
+        s = SpatiallyAdaptiveExtendScheme(A2, B2, number_of_refinements_before_extend=case['nrbe'], version=case['version'],
                                           automatic_extend_split=case['auto'], split_single_dim=case['single'], operation=op)
     else:
         from sparseSpACE.spatiallyAdaptiveCell import SpatiallyAdaptiveCellScheme
-        s = SpatiallyAdaptiveCellScheme(a, b, operation=op)
+        s = SpatiallyAdaptiveCellScheme(A2, B2, operation=op)
+    yield
     ec = _scripted(case['seed'], tr)
+    handed = {'a (grid)': A, 'b (grid)': B, 'a (strategy)': A2, 'b (strategy)': B2}
+    frozen = {k: _frozen(v) for k, v in handed.items()}
+    mutated, aliasing, observer_notes = [], [], []
 
-    def observe(res):
-        st = dict(integral=[float(x) for x in np.asarray(res[3], dtype=float).ravel()], lmax=[int(x) for x in s.lmax])
+    def check_args(where):
+        for k, v in handed.items():
+            if _frozen(v) != frozen[k] and not any(m[0] == k for m in mutated):
+                mutated.append([k, where, str(v)[:120]])
+
+    def normalised(v):
+        v = np.asarray(v, dtype=float).ravel().copy()
+        v[1:] = v[1:] / ampf
+        return [float(x) for x in v]
+
+    def observe(res, step):
+        st = dict(integral=normalised(res[3]), lmax=[int(x) for x in s.lmax])
         objs = s.refinement.get_objects()
         if case['strategy'] == 'es':
             areas = []
@@ -617,17 +1018,61 @@ def impl_es(case):
         else:
             st['ncells'] = len(objs)
             st['nactive'] = sum(1 for o in objs if o.active)
+        if case.get('sentinel') and isinstance(res[3], np.ndarray) and res[3].flags.writeable:
+            res[3][...] = SENTINEL                                  # (c) the returned result array is overwritten
+            now = normalised(op.get_result())
+            if now != st['integral'] and not aliasing:
+                aliasing.append(['reported result', 'step %d' % step, str(now[:3])])
         return st
+
+    def run_observers(names, step):
+        before = normalised(op.get_result())
+        for name in names:
+            try:
+                if name == 'num_points':
+                    s.get_total_num_points()
+                elif name == 'get_result':
+                    op.get_result()
+                elif name == 'final_combi':
+                    s.evaluate_final_combi()
+            except Exception as e:
+                observer_notes.append([name, type(e).__name__, str(e)[:100], 'step %d' % step])
+            check_args('step %d: observer %s' % (step, name))
+        after = normalised(op.get_result())
+        if after != before:
+            observer_notes.append(['result-after-observers', 'observers %s' % names, 'step %d' % step, before, after])
+
+    def cont(mode):
+        if mode == 'b':
+            return s.continue_adaptive_refinement(tol=-1, max_evaluations=2)
+        if mode == 'c':
+            return s.continue_adaptive_refinement(tol=-1, max_time=0.0)
+        if mode == 'd':
+            return s.continue_adaptive_refinement(-1, None, 1)
+        if mode == 'e':
+            return s.continue_adaptive_refinement(tol=-1, max_evaluations=1, min_evaluations=0)
+        return s.continue_adaptive_refinement(tol=-1, max_evaluations=1)
 
     states, abort = [], None
     try:
         res = s.performSpatiallyAdaptiv(case['lmin'], case['lmax'], ec, tol=-1, max_evaluations=1, do_plot=False, print_output=False)
-        states.append(observe(res))
+        check_args('performSpatiallyAdaptiv')
+        yield
+        states.append(observe(res, 0))
+        obs = case.get('observers') or []
+        cm = case.get('cont') or []
         for k in range(1, case['steps'] + 1):
+            if k - 1 < len(obs) and obs[k - 1]:
+                run_observers(obs[k - 1], k - 1)
+                yield
             tr['step'] = k
             s.refine()
-            res = s.continue_adaptive_refinement(tol=-1, max_evaluations=1)
-            states.append(observe(res))
+            check_args('step %d: refine' % k)
+            yield
+            res = cont(cm[k - 1] if k - 1 < len(cm) else 'a')
+            check_args('step %d: continue_adaptive_refinement' % k)
+            yield
+            states.append(observe(res, k))
     except Exception as e:          # the states reached so far are still checked
         import traceback
         where = ''
@@ -636,7 +1081,14 @@ def impl_es(case):
                 where = '%s:%d' % (fr.filename.rsplit('/', 1)[-1], fr.lineno)
                 break
         abort = (type(e).__name__, where, str(e)[:200], tr['step'])
-    return dict(states=states, abort=abort)
+    return dict(states=states, abort=abort, mutated=mutated, aliasing=aliasing, observer_notes=observer_notes, argmode=argmode)
+
+
+def impl_es(case):
+    comp = case.get('companion')
+    res, comp_exc = _drive(steps_es(case), _steps_of(comp) if comp else None)
+    res['companion_exc'] = comp_exc
+    return res
 
 
 ES_CORPUS = [
@@ -668,6 +1120,7 @@ def check_es(chk, cases, verbose=False):
         st, r = impl[i]
         strat = c['strategy']
         chk.count('%s:dim=%d' % (strat, c['dim']))
+        count_axes(chk, c, r if st == 'ok' else None, strat + ':')
         if strat == 'es':
             chk.count('es:version=%d' % c['version']); chk.count('es:auto=%s' % c['auto']); chk.count('es:single=%s' % c['single'])
         sig0 = dict(strategy=strat, version=c.get('version'), auto=c.get('auto'), single=c.get('single'))
@@ -689,11 +1142,18 @@ def check_es(chk, cases, verbose=False):
         b = [Fraction(x) for x in c['b']]
         exps = multilinear_exps(c['dim'])
         exact = [moment(a, b, e) for e in exps]
+        scale = []
+        for e in exps:                       # natural scale of the moment: prod_d max|x_d|^e_d * (b_d - a_d)
+            v = Fraction(1)
+            for ad, bd, k in zip(a, b, e):
+                v *= (max(abs(ad), abs(bd)) ** k) * (bd - ad)
+            scale.append(v)
+        rc = max(rc, side_oracles(chk, strat, c, r, c, scale))
         chk.count('%s:states' % strat, len(r['states']))
         done = False
         for k, s_ in enumerate(r['states']):
             integ = s_['integral'][1:]
-            bad = [(e, integ[n], ex) for n, (e, ex) in enumerate(zip(exps, exact)) if not close(integ[n], ex)]
+            bad = [(e, integ[n], ex) for n, (e, ex) in enumerate(zip(exps, exact)) if not close(integ[n], ex, scale[n])]
             line = '  step %d: lmax %s ' % (k, s_['lmax']) + ('areas %d' % len(s_['areas']) if strat == 'es' else 'cells %d (active %d)' % (s_['ncells'], s_['nactive']))
             line += ' | property predicate: ' + ('holds' if not bad else 'FAILS for x^%s: reported %r, exact %s' % (bad[0][0], bad[0][1], bad[0][2]))
             if bad and not done:
@@ -715,7 +1175,7 @@ def check_es(chk, cases, verbose=False):
                     chk.count('checker:moments_additive evaluations')
                     chk.count('checker:valid_local_combi evaluations', len(valid))
                     mv = {tuple(e): sx.q(v) for e, v in vals}
-                    dm = [(e, integ[n], mv[tuple(e)]) for n, e in enumerate(exps) if not close(integ[n], mv[tuple(e)])]
+                    dm = [(e, integ[n], mv[tuple(e)]) for n, e in enumerate(exps) if not close(integ[n], mv[tuple(e)], scale[n])]
                     line += ' | moments_additive %s, valid_local_combi %s, es_integral %s' % (
                         bool(additive), all(valid), 'agrees' if not dm else 'DIFFERS for x^%s: reported %r, model %s' % dm[0])
                     if not done and (not additive or not all(valid) or dm):
@@ -742,9 +1202,13 @@ def check_es(chk, cases, verbose=False):
 
 # =============================================================================================== run / replay
 def run(chk):
-    chk.coq_obligations()
-    n_dw = chk.n(100, 900)
-    cases = corpus_dw() + [gen_case_dw(chk.rng, chk.tier) for _ in range(n_dw)]
+    # thorough tier: coqchk re-checks the C04-own modules only (the ESExact/C07/C08 closure takes > 30 min and is re-checked by C07/C08)
+    chk.coq_obligations(coqchk_own=True)
+    n_dw = chk.n(60, 900)
+    cases = corpus_dw() + [gen_case_dw(chk.rng, chk.tier) for _ in range(n_dw)] + [gen_case_big(chk.rng) for _ in range(chk.n(2, 12))]
+    for c in cases[len(corpus_dw()):]:
+        if chk.rng.random() < 0.3:
+            c['companion'] = gen_companion(chk.rng, 'dw')
     keys, samples, _ = check_dw(chk, cases)
     chk.record_cases(len(cases), keys,
                      'scripted dimension-wise histories on the real SpatiallyAdaptiveSingleDimensions2 (d 2..4, lmin 1..2, lmax<=3, versions '
@@ -752,8 +1216,11 @@ def run(chk):
                      'integrand carrying ALL hierarchical hats of the initial sparse-grid space (modified basis: products of linear functions); '
                      'after every step integral and interpolant of every function vs analytic value and vs the Coq model; non-trivial = >=2 steps '
                      'and >=2 splits; distinct by options and split positions', samples)
-    es_cases = ES_CORPUS + [gen_case_es(chk.rng, chk.tier) for _ in range(chk.n(100, 1000))] + \
-        [gen_case_cell(chk.rng, chk.tier) for _ in range(chk.n(40, 300))]
+    es_cases = ES_CORPUS + [gen_case_es(chk.rng, chk.tier) for _ in range(chk.n(60, 1000))] + \
+        [gen_case_cell(chk.rng, chk.tier) for _ in range(chk.n(25, 300))]
+    for c in es_cases[len(ES_CORPUS):]:
+        if chk.rng.random() < 0.3:
+            c['companion'] = gen_companion(chk.rng, c['strategy'])
     keys, samples, _ = check_es(chk, es_cases)
     chk.record_cases(len(es_cases), keys,
                      'scripted histories on the real SpatiallyAdaptiveExtendScheme (d 2..3, versions 0..2, number_of_refinements_before_extend 0..3, '
